@@ -161,10 +161,11 @@ def extract_range(ctx, F):
         OPS = ('field', ('param', 'self'), 'operators')
         RNG = ('agg', ('adt', 'Range', 'Range', ('start', 'end')), (('param', 'start'), ('param', 'end')))
         sl_item = [x for x in walk(v) if is_call(x, 'Iterator::next') and is_call(x[2][0], 'Index::index') and x[2][0][2][0] == OPS and s(x[2][0][2][1]) == RNG]
-        if sl_item and v[0] == 'agg' and v[1] == 'tuple' and v[2][0] == ('field', sl_item[0], '0') and v[2][1] == ('field', sl_item[0], '1'):
-            # the sub-slice self.operators[start..end], swept in order
+        if sl_item and ((v[0] == 'agg' and v[1] == 'tuple' and v[2][0] == ('field', sl_item[0], '0') and v[2][1] == ('field', sl_item[0], '1')) or s(v) == s(sl_item[0])):
+            # the sub-slice self.operators[start..end], swept in order (pair by pair, or each pair cloned as a whole)
             it = sl_item[0]
-            if not (len(ws) == 1 and s(ws[0].value) == s(('field', it, '1'))):
+            last_of_slice = ('field', ('call', '[T]::last', (s(it[2][0]),)), '1')
+            if not (len(ws) == 1 and (s(ws[0].value) == s(('field', it, '1')) or s(ws[0].value) == last_of_slice)):
                 problems.append('current_shape of the extracted architecture is not the shape recorded with the last copied layer')
         elif not (v[0] == 'agg' and v[1] == 'tuple' and item and v[2][0] == ('field', item[0], '0') and v[2][1] == ('field', item[0], '1')):
             problems.append('a copied entry is not the (layer, shape) pair of the source entry')
